@@ -22,7 +22,8 @@ Qed.
 Lemma run_op_cache now o p : p_cache (fst (run_op now o p)) = p_cache p.
 Proof.
   destruct o; cbn [run_op]; try reflexivity.
-  destruct (pb_find k (p_pb p)); [destruct (z <? now)%Z|]; reflexivity.
+  - destruct (pb_find k (p_pb p)); [destruct (z <? now)%Z|]; reflexivity.
+  - destruct (limit <? rc_total now k (window * 1000) ((k, now, d) :: p_rc p) / window)%Z; reflexivity.
 Qed.
 
 Lemma run_ops_cache now os : forall p p' l, run_ops now os p = (p', l) -> p_cache p' = p_cache p.
